@@ -28,8 +28,16 @@ import (
 type vfC03L1Cfg struct {
 	thr    int
 	tgt    int
+	minor  int
 	fnex   int // 0 replace, 1 flush, 2 append
 	modaux bool
+}
+
+func (c vfC03L1Cfg) tgtTok() string {
+	if c.minor == 0 {
+		return fmt.Sprint(c.tgt)
+	}
+	return fmt.Sprintf("%d.%d", c.tgt, c.minor)
 }
 
 func (c vfC03L1Cfg) String() string {
@@ -37,7 +45,7 @@ func (c vfC03L1Cfg) String() string {
 	if c.modaux {
 		m = 1
 	}
-	return fmt.Sprintf("%d %d %d %d", c.thr, c.tgt, c.fnex, m)
+	return fmt.Sprintf("%d %s %d %d", c.thr, c.tgtTok(), c.fnex, m)
 }
 
 // vfC03L1 runs the real parser on data and renders the decoder view.
@@ -45,7 +53,7 @@ func vfC03L1(data []byte, c vfC03L1Cfg) (lines []string, timedOut bool) {
 	old := VerifSetMaxBinEntryBuffer(c.thr)
 	defer VerifSetMaxBinEntryBuffer(old)
 	fe := []string{"replace", "flush", "append"}[c.fnex]
-	opts := []RdbParseOption{WithTargetRedisVersion(fmt.Sprintf("%d.0.0", c.tgt)), WithFunctionExists(fe)}
+	opts := []RdbParseOption{WithTargetRedisVersion(fmt.Sprintf("%d.%d.0", c.tgt, c.minor)), WithFunctionExists(fe)}
 	if c.modaux {
 		opts = append(opts, WithFailOnModuleAux())
 	}
@@ -222,8 +230,12 @@ func TestVerifC03Dec(t *testing.T) {
 		return out
 	}
 	cfgs := func() vfC03L1Cfg {
-		return vfC03L1Cfg{thr: vfutil.Pick(r, []int{1, 5, 20, 100, 16 << 20}), tgt: vfutil.Pick(r, []int{4, 5, 6, 7, 8}),
+		c := vfC03L1Cfg{thr: vfutil.Pick(r, []int{1, 5, 20, 100, 16 << 20}), tgt: vfutil.Pick(r, []int{4, 5, 6, 7, 8}),
 			fnex: r.Intn(3), modaux: r.Bool()}
+		if c.tgt == 6 && r.Bool() {
+			c.minor = 2
+		}
+		return c
 	}
 
 	// ---- corpus: "l1 <cfg…> raw <hex>" / "l1 <cfg…> v …" lines
@@ -234,7 +246,14 @@ func TestVerifC03Dec(t *testing.T) {
 		}
 		var c vfC03L1Cfg
 		var m int
-		fmt.Sscanf(strings.Join(f[1:5], " "), "%d %d %d %d", &c.thr, &c.tgt, &c.fnex, &m)
+		var tgtTok string
+		fmt.Sscanf(strings.Join(f[1:5], " "), "%d %s %d %d", &c.thr, &tgtTok, &c.fnex, &m)
+		if p := strings.SplitN(tgtTok, ".", 2); len(p) == 2 {
+			fmt.Sscanf(p[0], "%d", &c.tgt)
+			fmt.Sscanf(p[1], "%d", &c.minor)
+		} else {
+			fmt.Sscanf(tgtTok, "%d", &c.tgt)
+		}
 		c.modaux = m == 1
 		rest := strings.Join(f[5:], " ")
 		var data []byte
@@ -258,7 +277,7 @@ func TestVerifC03Dec(t *testing.T) {
 	fx := vfC03Fixtures()
 	s.Add("fixtures", len(fx))
 	for _, d := range fx {
-		for _, c := range []vfC03L1Cfg{{16 << 20, 7, 0, false}, {16 << 20, 4, 1, true}, {3, 7, 2, false}} {
+		for _, c := range []vfC03L1Cfg{{16 << 20, 7, 0, 0, false}, {16 << 20, 4, 0, 1, true}, {3, 7, 0, 2, false}} {
 			runL1("raw "+vfutil.Hex(d), d, c, "fixture")
 		}
 	}
@@ -270,7 +289,7 @@ func TestVerifC03Dec(t *testing.T) {
 	var descs []string
 	for i := 0; i < n; i++ {
 		ds := g.File(vfc03.FileOpts{MaxKeys: 5, Now: 946684800000, MultiDB: true, Modules: true, Huge: i == n/2,
-			Many: map[int]string{n/3: "slpmany", 2*n/3: "hlpmany"}[i],
+			Many: map[int]string{n/3: "slpmany", 2*n/3: "hlpmany"}[i], Streams: i%5 == 1,
 			Versions: []int{1, 6, 7, 8, 9, 10, 11, 12, 13}})
 		dss = append(dss, ds)
 		descs = append(descs, ds.Desc)
@@ -292,6 +311,55 @@ func TestVerifC03Dec(t *testing.T) {
 		// its DB, absolute expiry and — when not split — a payload equal to
 		// type + serialization + footer (independent CRC64)
 		vfC03CheckL1(s, dss[i], o, out, c, descs[i])
+		// ---- streams: the SPECIFICATION's expected expansion (Lean StreamE.cmds, proved equal to the
+		// model's execStream and replayed through the oracle by stream_roundtrip) against the real
+		// StreamParser.ExecCmd, key by key ("svc" op), for every stream that passes the verified
+		// soundness test; coverage classes of the generated streams
+		if !(dss[i].ModuleAux && c.modaux) {
+			var blocks [][]string // the "c" lines of every key entry, in file order
+			for _, l := range out {
+				if strings.HasPrefix(l, "e ") {
+					if strings.Contains(l, " t=250 ") || strings.Contains(l, " t=245 ") {
+						blocks = append(blocks, nil) // placeholder, dropped below
+						blocks[len(blocks)-1] = []string{"#skip"}
+						continue
+					}
+					if strings.Contains(l, " first=1 ") {
+						blocks = append(blocks, []string{})
+					}
+					continue
+				}
+				if len(blocks) > 0 && strings.HasPrefix(l, "c ") && (len(blocks[len(blocks)-1]) == 0 || blocks[len(blocks)-1][0] != "#skip") {
+					blocks[len(blocks)-1] = append(blocks[len(blocks)-1], l)
+				}
+			}
+			var keyBlocks [][]string
+			for _, b := range blocks {
+				if len(b) == 1 && b[0] == "#skip" {
+					continue
+				}
+				keyBlocks = append(keyBlocks, b)
+			}
+			if len(keyBlocks) != len(dss[i].Keys) {
+				s.Count("svc_skipped_entry_blocks_do_not_match_keys")
+			}
+			if len(keyBlocks) == len(dss[i].Keys) {
+				for j, k := range dss[i].Keys {
+					if k.Kind != "stream" {
+						continue
+					}
+					for _, cn := range k.Val.Shape.Counters() {
+						s.Count(cn)
+					}
+					if !o.Keys[j].Sound {
+						s.Count("stream_not_sound_skipped")
+						continue
+					}
+					top("svc", fmt.Sprintf("%s %s %s", c.tgtTok(), vfutil.Hex(k.Key), k.ObjDesc), keyBlocks[j])
+					s.Count("svc_stream_expansions_vs_spec")
+				}
+			}
+		}
 		// ---- damaged variants (decoder model on malformed input)
 		// (files with old-format zset scores are left out: the model covers only
 		// integer / inf / nan score strings, a damaged digit may still parse in Go)
